@@ -210,7 +210,12 @@ pub fn cmd_replay(args: &[String]) -> i32 {
         n += 1;
         *ops.entry(c["op"].as_str().unwrap_or("").to_string()).or_default() += 1;
         layouts.insert(fnv(&c["pre"].to_string()));
-        if let Some(m) = judge(&c) {
+        // rendering a handle is code under test as well: a panic there (a handle left inconsistent by the operation) is a mismatch
+        let verdict = match guarded(|| judge(&c)) {
+            Outcome::Done(v) => v,
+            Outcome::Panic(m) => Some(json!({"case": c, "why": [format!("panic while the handles were built or rendered: {}", m)]})),
+        };
+        if let Some(m) = verdict {
             bad += 1;
             if bad <= 200 {
                 out.push_str(&m.to_string());
@@ -242,6 +247,9 @@ pub fn cmd_record(args: &[String]) -> i32 {
             trace.push('\n');
         };
         emit(&mut trace, "reset", json!({}), &t);
+        // a panic inside an operation (or while a handle is rendered) ends the run with an event no action of the
+        // specification explains
+        let outcome = guarded(|| {
         for _ in 0..oplen {
             let live: Vec<usize> = (0..nh).filter(|i| t[*i].is_some()).collect();
             let free: Vec<usize> = (0..nh).filter(|i| t[*i].is_none()).collect();
@@ -330,6 +338,12 @@ pub fn cmd_record(args: &[String]) -> i32 {
                 13 => { let hh = t[h].take().unwrap(); t[h] = Some(hh.detach()); emit(&mut trace, "detach", json!({"h": h + 1}), &t); }
                 _ => continue,
             }
+            events += 1;
+        }
+        });
+        if let Outcome::Panic(m) = outcome {
+            trace.push_str(&json!({"run": run, "op": "panic", "args": {"msg": m}, "live": [], "post": []}).to_string());
+            trace.push('\n');
             events += 1;
         }
     }
